@@ -27,7 +27,12 @@ folder, files, languages, folders in the root) get their own ladder, plus the ru
 literal that is new in the source under check (harness/gen/srcdict.py); (e) VALUE SHAPES - the identifier-like string
 fields (uuid, version, timestamp, root, repository, checksum, language, unit name) take every spelling such a field
 admits (harness/h4_round5.identifier_shapes: canonical / upper-case / braced / urn: / bare-hex UUIDs, digests, numbers,
-versions, dates, refs, whitespace around, novel source literals)."""
+versions, dates, refs, whitespace around, novel source literals).
+
+Round 6: DUPLICATED MEMBERS x VERSION STATES (`gen_dup_specs`) - reports in which a file lists the very same measurement
+several times (adjacent, apart, three times, first and last, the whole list twice, the same list in two files, all
+equal, near-duplicates differing in one component) under every state of the version field (running, absent, empty,
+another release, running + suffix, arbitrary text); they go through every comparison of the report stream."""
 import json
 import os
 import sys
@@ -414,6 +419,68 @@ def gen_shaped_spec(rnd):
         files.append((path, checksum, language, loc, ms))
     spec["files"] = files
     return spec
+
+
+VERSION_STATES = ["default", None, "", "0.9.3", "running-with-suffix", "random"]
+
+
+def gen_dup_specs(rnd, count):
+    """DUPLICATED MEMBERS x VERSION STATES: reports in which a member of a collection occurs more than once - the very
+    same measurement (all six components) twice adjacent, twice apart, three times, a whole measurement list repeated,
+    the same list in two files, near-duplicates differing in one component - under every state of the version field
+    (running version, absent, empty, another release, the running version with a suffix, arbitrary text) and with /
+    without repository. -> [(label, spec)]"""
+    out = []
+    shapes = ["adjacent", "apart", "triple", "list-twice", "two-files", "near", "first-last", "all-equal"]
+    k = 0
+    while len(out) < count:
+        vstate = VERSION_STATES[k % len(VERSION_STATES)]
+        shape = shapes[(k // len(VERSION_STATES)) % len(shapes)]
+        k += 1
+        spec = gen_spec(rnd, nfiles=rnd.choice([1, 2, 3]))
+        if not spec["files"]:
+            continue
+        files = list(spec["files"])
+        fi = rnd.randrange(len(files))
+        path, checksum, language, loc, ms = files[fi]
+        ms = list(ms)
+        while len(ms) < 2:
+            sl = gen_int(rnd)
+            ms.append((gen_str(rnd, 6), sl, gen_int(rnd), sl + gen_int(rnd), gen_int(rnd), gen_int(rnd)))
+        m = ms[rnd.randrange(len(ms))]
+        if shape == "adjacent":
+            i = ms.index(m)
+            ms[i:i] = [m]
+        elif shape == "apart":
+            ms = [m] + [x for x in ms if x != m] + [(cps("between"), 1, 0, 2, 0, 7), m]
+        elif shape == "triple":
+            ms = [m] + ms + [m, m]
+        elif shape == "list-twice":
+            ms = ms + ms
+        elif shape == "two-files":
+            files = [(f[0], f[1], f[2], f[3], list(ms)) for f in files]
+        elif shape == "near":
+            j = rnd.randrange(6)
+            near = tuple((m[0] + [0x78]) if t == 0 and t == j else (m[t] + 1) if t == j else m[t] for t in range(6))
+            ms = ms + [near, m]
+        elif shape == "first-last":
+            ms = [m] + ms + [m]
+        else:
+            ms = [m] * rnd.choice([2, 3, 5])
+        if shape != "two-files":
+            files[fi] = (path, checksum, language, loc, ms)
+        spec["files"] = files
+        if vstate == "default" or vstate is None or vstate == "":
+            spec["version"] = vstate if vstate != "" else []
+        elif vstate == "0.9.3":
+            spec["version"] = cps("%d.%d.%d" % (rnd.randint(0, 3), rnd.randint(0, 20), rnd.randint(0, 9)))
+        elif vstate == "running-with-suffix":
+            from codelimit.common.report.Report import Report
+            spec["version"] = cps(str(Report.VERSION) + rnd.choice([".1", "rc1", " ", "-dev"]))
+        else:
+            spec["version"] = gen_str(rnd, 6)
+        out.append(("%s; version %s" % (shape, vstate), spec))
+    return out
 
 
 def gen_long(rnd, n, nosep=False):
@@ -885,6 +952,11 @@ def correspond(ctx):
     n_shaped = ctx.pick(40, 400)
     specs += [gen_shaped_spec(srnd) for _ in range(n_shaped)]
     dist["shaped_reports"] = n_shaped
+    dups = gen_dup_specs(ctx.rng("dup-members"), ctx.pick(96, 480))
+    dist["duplicated_members"] = {}
+    for label, _s in dups:
+        dist["duplicated_members"][label] = dist["duplicated_members"].get(label, 0) + 1
+    specs += [sp for _l, sp in dups]
     pair_specs = [gen_spec(ctx.rng("pairs", i), pairs=True, nfiles=2) for i in range(ctx.pick(15, 150))]
     loads_texts = []           # (origin, text)
     read_texts = []            # (origin, text)
@@ -1102,7 +1174,9 @@ def correspond(ctx):
                 "ladder additionally gets the rungs n-1, n, n+1, 2n (and `n files in all`) of every integer literal that is new in the source under check (" + str(r5.novel_only(2, 10 ** 6)[:8] or "none on this tree") + "); "
                 "value shapes: " + str(dist.get("shaped_reports", 0)) + " reports through all comparisons and every one of " + str(dist.get("identifier_shapes", 0)) + " identifier spellings "
                 "(canonical / upper-case / braced / urn: / bare-hex UUIDs, digests, numbers, versions, dates, refs, whitespace around, novel source literals) as uuid "
-                "and in one other string field through the oracle; non-trivial = documents with >= 1 file and "
+                "and in one other string field through the oracle; duplicated members: " + str(sum(dist.get("duplicated_members", {}).values())) + " reports through all comparisons in which a "
+                "measurement occurs several times in a file (adjacent, apart, three times, first and last, whole list twice, same list in two files, all equal, "
+                "near-duplicates differing in one component) x version state (running, absent, empty, another release, running + suffix, arbitrary); non-trivial = documents with >= 1 file and "
                 "distinct accepted non-document texts") % dist["reports"],
         "samples": samples, "exhaustive": False, "distribution": dist,
         "disagreements": dis[:50], "oracle_failures": fails[:50],
